@@ -7,7 +7,13 @@
    started by backgroundFlush; a flusher that went idle keeps running its deferred
    Flush while a new one may already have been started).  Every mutex section,
    channel operation, atomic counter update and callback run is ONE atomic action.
-   A schedule is a [list ev]; events that are not enabled are skipped (stutter). *)
+   A schedule is a [list ev]; events that are not enabled are skipped (stutter).
+
+   This is the protocol after the fix of finding F6 (go-zero commit "fix: periodical
+   executor Wait returned before a batch handed over by a concurrent Add had run"):
+   the flusher enters the execution BEFORE giving up inflight, and Wait blocks until
+   inflight = 0 between its Flush and Guard(waitGroup.Wait).  The pre-fix protocol is
+   kept in Pinned.v with its refutations. *)
 From Coq Require Import List ZArith Bool.
 Import ListNotations.
 Open Scope Z_scope.
@@ -18,8 +24,7 @@ Definition batch := list task.
 Record config := mkCfg
   { maxw : Z;          (* bulk: maxTasks (every weight 1); chunk: maxChunkSize *)
     interval : Z;      (* flush interval, in clock units *)
-    bad : list task;   (* a callback whose batch contains one of these tasks panics *)
-    patched : bool     (* false: the code as it is.  true: candidate repair of F6 *) }.
+    bad : list task    (* a callback whose batch contains one of these tasks panics *) }.
 
 Definition idleRound : Z := 10.
 
@@ -39,7 +44,7 @@ Inductive cpc :=
 | CAddSend (h : batch)           (* removed the batch, before commander <- h *)
 | CAddConfirm                    (* before <-confirmChan *)
 | CFl (f : fpc) (w : bool)       (* inside Flush; w: called from Wait *)
-| CWSpin                         (* patched only: wait until inflight = 0 *)
+| CWSpin                         (* Wait: blocked on inflightCond until inflight = 0 *)
 | CWGuard                        (* before wgBarrier lock *)
 | CWWait.                        (* holds the barrier, inside waitGroup.Wait *)
 
@@ -47,7 +52,7 @@ Inductive bpc :=
 | BStart                                  (* goroutine created; before newTicker *)
 | BSelect (commanded : bool) (last : Z)
 | BGot (h : batch) (last : Z)             (* received h; before enterExecution *)
-| BDec (h : batch)                        (* patched only: entered, before inflight-- *)
+| BDec (h : batch)                        (* entered; before lock, inflight--, Broadcast, unlock *)
 | BConfirm (h : batch)                    (* before confirmChan <- *)
 | BExec (h : batch)                       (* before the callback on h *)
 | BDone                                   (* before waitGroup.Done *)
@@ -187,7 +192,7 @@ Definition cstep (cfg : config) (s : state) (c : nat) : option state :=
       match fstep cfg s f with
       | None => None
       | Some (s', FRet _) =>
-        if w then goto s' (if patched cfg then CWSpin else CWGuard) else goto s' CIdle
+        if w then goto s' CWSpin else goto s' CIdle
       | Some (s', f') => goto s' (CFl f' w)
       end
     | CWSpin => if inflight s =? 0 then goto s CWGuard else None
@@ -223,15 +228,11 @@ Definition bstep (cfg : config) (s : state) (b : nat) (alt : bool) : option stat
         else None
       else
         match cmd s with
-        | Some h =>
-          if patched cfg then goto (set_cmd s None) (BGot h last)
-          else goto (set_inflight (set_cmd s None) (inflight s - 1)) (BGot h last)
+        | Some h => goto (set_cmd s None) (BGot h last)
         | None => None
         end
     | BGot h last =>
-      if barrier s then None
-      else if patched cfg then goto (set_wg s (wg s + 1)) (BDec h)
-      else goto (set_wg s (wg s + 1)) (BConfirm h)
+      if barrier s then None else goto (set_wg s (wg s + 1)) (BDec h)
     | BDec h => goto (set_inflight s (inflight s - 1)) (BConfirm h)
     | BConfirm _ => None      (* rendezvous: performed by the receiving client's action *)
     | BExec h =>
